@@ -1,6 +1,6 @@
 import RV.Props.ExecutorXThms
 /-!
-# The CloneSet partition plane and the ReplicaSet reference are lawful planes
+# The CloneSet partition plane is a lawful plane
 
 `csPlane` is the plane of `RV.Executor` (so every theorem of `RV.Props.ExecutorX` specialises to the CloneSet executor, which is
 `RV.Executor.reconcile` by `executor_is_instance`).
@@ -172,34 +172,12 @@ theorem csExposure : ExposureLaws csPlane csPreds where
 theorem cs_ready_is_batchReady (br : BR) (wl : Option Workload) :
     csPreds.ready br wl = RV.Oracle.Executor.batchReadyNow br wl := rfl
 
-/-- **the ReplicaSet reference**: the plane never reports success of `EnsureBatchPodsReadyAndLabeled` or `Initialize`, and its
-    `Finalize` succeeds only when the ReplicaSet does not exist; every call on an existing ReplicaSet crashes (`ParseWorkload`). -/
-theorem rsLaws : Laws rsPlane rsPreds where
-  ensure_ok_iff := by
-    intro br ns ex _
-    simp only [rsPlane, rsPreds]
-    cases ex <;> simp
-  fin_ok_released := by intro _ _ _ _ _; rfl
-  init_frame := by
-    intro br ns ex ex' ns' r h
-    simp only [rsPlane] at h
-    cases ex
-    · simp only [Bool.false_eq_true, if_false, Out.val.injEq, Prod.mk.injEq] at h
-      obtain ⟨_, h2, _⟩ := h; subst h2; exact ⟨rfl, rfl, rfl, rfl, rfl⟩
-    · simp at h
-  init_ok_claimed := by
-    intro br ns ex ex' ns' _ h
-    simp only [rsPlane] at h
-    cases ex <;> simp at h
-
-/-- **C09 (finding `stsPlaneForeignKind`, witness)** — a BatchRelease whose workloadRef names an existing apps/v1 ReplicaSet
-    crashes the reconciler: `getReleaseController` builds the StatefulSet-like control for it and `util.ParseWorkload` panics. -/
-theorem rs_reference_panics_FALSE (s : Style) (e : Bool) (br : BR) (hd : br.deleting = false) :
-    dispatch .replicaSet s e = some .stsLike ∧ reconcileX rsPlane br true = .panic := by
-  refine ⟨by cases s <;> cases e <;> rfl, ?_⟩
-  unfold reconcileX
-  simp only [hd, Bool.false_eq_true, false_and, if_false]
-  unfold reconcileBodyX syncStatusX
-  simp [rsPlane, withFinalizer, hd]
+/-- **C09 (finding `stsPlaneForeignKind`, repaired) — regression** — a BatchRelease whose workloadRef names an apps/v1 ReplicaSet gets
+    no control plane under any rolling style: `getReleaseController` refuses it like an unsupported workload, and the reconcile
+    persists the initialised status and returns without reading the ReplicaSet (before the repair the StatefulSet-like control was
+    built for it and `util.ParseWorkload` crashed the manager). -/
+theorem rs_reference_refused (s : Style) (e : Bool) (br : BR) (w : Bool) :
+    dispatch .replicaSet s e = none ∧ reconcileNoPlane br w ≠ .panic :=
+  ⟨by cases s <;> cases e <;> rfl, x_no_panic_without_plane br w⟩
 
 end RV.Props.ExecutorX
